@@ -259,6 +259,11 @@ pub fn build(p: Pipe) -> Rig {
         if n > 1 {
           e::fail("finalize_threads/ran-twice", || "finalizer invoked a second time (racing terminate / unsubscribe)".to_string());
         }
+        // the finalizer is one of the subscriber's callbacks: it must not run while another
+        // thread is still inside a notification of the same subscriber
+        if world::w(|w| w.probes[probe.id].in_callback) {
+          e::fail("finalize_threads/ran-while-subscriber-callback-running", || "the finalizer ran on one thread while another thread was still delivering a notification to the same subscriber".to_string());
+        }
         // the subscription is over: whatever another thread emits from now on must not arrive
         probe.forbid("finalize_threads/delivery-after-finalizer");
         world::maybe_preempt();
@@ -455,6 +460,7 @@ fn make_closure(rig: &Rig, op: TOp, late: Rc<RefCell<Vec<Probe>>>, key_after_uns
 fn c10_preempt(pipes: &[Pipe], nops: usize, max_preempt: u32) {
   let p = pipes[e::choose(pipes.len() as u32) as usize];
   let rig = build(p);
+  e::cfg_begin(&format!("{:?}", p));
   world::threads_enable(2, max_preempt);
   let late: Rc<RefCell<Vec<Probe>>> = Rc::new(RefCell::new(vec![]));
   let key: &'static str = crate::h_sched::leak_key(format!("callback-started-after-unsubscribe-returned/{:?}", p));
@@ -514,7 +520,7 @@ fn c10_preempt(pipes: &[Pipe], nops: usize, max_preempt: u32) {
   // threads' operations produces (each operation atomic), decided by replaying every such
   // order against a fresh instance of the same pipeline. A lost completion, a lost item or
   // a lost hand-over shows up here.
-  if !matches!(p, Pipe::Behavior | Pipe::FlatMapIter) && !script.iter().flatten().any(|o| matches!(o, TOp::Subscribe)) {
+  if !matches!(p, Pipe::FlatMapIter) && !script.iter().flatten().any(|o| matches!(o, TOp::Subscribe)) {
     let got: Vec<Vec<Ev>> = rig.probes.iter().map(|q| q.events()).collect();
     drop(rig);
     let orders = interleavings(script[0].len(), script[1].len());
@@ -555,6 +561,7 @@ fn c10_preempt(pipes: &[Pipe], nops: usize, max_preempt: u32) {
       e::fail(&format!("not-serialisable/{:?}", p), || format!("concurrent run delivered [{}]; no serial order of the same operations does (e.g. {})", got.iter().map(|l| model::show_events(l)).collect::<Vec<_>>().join(" / "), shown.join(" | ")));
     }
   }
+  e::cfg_end(&format!("{:?}", p));
   e::cover("c10-preempt-path-complete");
 }
 
